@@ -7,6 +7,7 @@ import (
 	"time"
 
 	"github.com/mycoria/mycoria/mgr"
+	"github.com/mycoria/mycoria/peering"
 )
 
 // VerifFrameWorker returns the router's frame handling worker function, so
@@ -131,4 +132,11 @@ func (h *PingPongHandler) VerifExpirePongs() (n int) {
 // Verification hook: only compiled with the "verif" build tag.
 func (r *Router) VerifCleanPingHandlers(w *mgr.WorkerCtx) {
 	r.cleanPingHandlers(w)
+}
+
+// VerifKeepAlivePeer runs the keep-alive check of one link exactly as the
+// keep-alive worker does for each of its links.
+// Verification hook: only compiled with the "verif" build tag.
+func (r *Router) VerifKeepAlivePeer(w *mgr.WorkerCtx, link peering.Link, fastCheck bool) {
+	r.keepAlivePeer(w, link, fastCheck)
 }
